@@ -26,20 +26,19 @@ def comparator_table(prog, rule=None):
     b = prog.body(key[0])
     adt = prog.adts[builders.RANK]
     table = {}
+    allnames = [v["name"] for v in adt["variants"]]
     for conds, ret, path in path_table(b):
-        va = vb = None
+        A, B = set(allnames), set(allnames)
         for c in conds:
             d = strip_refs(c[0])
             if d.k != "discr":
                 continue
             root, f = apath(d.a[0])
-            vs = variant_of(c, adt)
-            if len(vs) != 1:
-                continue
+            vs = set(variant_of(c, adt))
             if root.k == "arg" and root.a[0] == 1:
-                va = vs[0]
+                A &= vs
             elif root.k == "arg" and root.a[0] == 2:
-                vb = vs[0]
+                B &= vs
         r = strip_refs(ret) if ret is not None else None
         leaf = ("other", repr(r))
         if r is not None and r.k == "agg" and r.a[0].startswith("adt:std::cmp::Ordering::"):
@@ -53,7 +52,9 @@ def comparator_table(prog, rule=None):
                     leaf = ("cmp", "ab")
                 elif rx.a[0] == 2 and ry.a[0] == 1:
                     leaf = ("cmp", "ba")
-        table[(va, vb)] = (leaf, path)
+        for va in A:
+            for vb in B:
+                table[(va, vb)] = (leaf, path)
     return key[0], table
 
 
